@@ -23,7 +23,8 @@ fn scale(v: &V) -> f64 {
 /// Stated tolerance with which the distance between a and b is known (DESIGN C09).
 pub fn dist_tol(spec: &Spec, a: &V, b: &V) -> f64 {
     match (spec, a, b) {
-        (Spec::Rv { .. }, V::Rv(_), V::Rv(_)) => 1e-12 * (scale(a) + scale(b)).max(1e-300),
+        // (+1e-153: a coordinate difference below sqrt(MIN_POSITIVE) vanishes when it is squared)
+        (Spec::Rv { .. }, V::Rv(_), V::Rv(_)) => 1e-12 * (scale(a) + scale(b)).max(1e-300) + 1e-153,
         (Spec::So2 { .. }, V::So2(x), V::So2(y)) => angle_tol(*x) + angle_tol(*y) + 8.0 * f64::EPSILON * PI,
         (Spec::So3 { .. }, ..) => 1e-7,
         (_, V::Cmp(x), V::Cmp(y)) => {
@@ -430,7 +431,21 @@ fn c13_space<K: Kit>(spec: &Spec, lat: &[V], ts: &[f64], rep: &mut Report, label
     }
     // bounds operations on the "wild" product lattice: out-of-bounds, boundary and non-canonical
     // in-bounds component states (an early exit or a skipped component shows only there)
-    for wv_state in compound_wild_lattice(&parts) {
+    // (layouts with many components: a thinned product - all components at wild point k, and one component at a time)
+    let wild_states: Vec<V> = if parts.len() <= 4 {
+        compound_wild_lattice(&parts)
+    } else {
+        let subs: Vec<Vec<V>> = parts.iter().map(|p| compound_wild_lattice(std::slice::from_ref(p)).into_iter().map(|v| match v { V::Cmp(mut c) => c.remove(0), other => other }).collect()).collect();
+        let depth = subs.iter().map(|s| s.len()).max().unwrap_or(1);
+        let mut out: Vec<V> = (0..depth).map(|k| V::Cmp(subs.iter().map(|s| s[k % s.len()].clone()).collect())).collect();
+        for i in 0..parts.len() {
+            for k in 1..subs[i].len() {
+                out.push(V::Cmp(subs.iter().enumerate().map(|(j, s)| if j == i { s[k].clone() } else { s[0].clone() }).collect()));
+            }
+        }
+        out
+    };
+    for wv_state in wild_states {
         let s0 = K::from_v(&wv_state);
         let ai = comp(&K::to_v(&s0));
         let sat = sp.satisfies_bounds(&s0);
@@ -786,6 +801,33 @@ pub fn run(prop: &'static str, tier: &'static str) -> i32 {
             let Spec::Cmp { parts, .. } = &spec else { unreachable!() };
             let lat = compound_lattice(parts);
             jobs.push((spec, lat));
+        }
+        // many components (a 9-joint arm; a mobile manipulator): one state per component that differs in
+        // that component only, plus the four "all components at lattice point k" states
+        {
+            let many: Vec<Vec<Spec>> = vec![vec![so2.clone(); 9], {
+                let mut v = vec![r2.clone(), so3.clone()];
+                v.extend(vec![so2.clone(); 8]);
+                v
+            }, vec![r1.clone(); 17]];
+            for parts in many {
+                let subs: Vec<Vec<V>> = parts.iter().map(|p| compound_lattice(std::slice::from_ref(p)).into_iter().map(|v| match v { V::Cmp(mut c) => c.remove(0), other => other }).collect()).collect();
+                let mut lat: Vec<V> = (0..4).map(|k| V::Cmp(subs.iter().map(|s| s[k % s.len()].clone()).collect())).collect();
+                for i in 0..parts.len() {
+                    lat.push(V::Cmp(subs.iter().enumerate().map(|(j, s)| if j == i { s[1 % s.len()].clone() } else { s[0].clone() }).collect()));
+                }
+                let weights: Vec<f64> = (0..parts.len()).map(|i| [1.0, 0.5, 2.0][i % 3]).collect();
+                jobs.push((Spec::Cmp { parts, weights }, lat));
+            }
+        }
+        // coordinates whose differences are subnormal (or vanish when squared): a distance is still a
+        // finite non-negative number
+        if prop == "C09" {
+            for n in [1usize, 2] {
+                let cs = [0.0, 1e-310, -1e-310, 5e-324, 1e-200, 1.0];
+                let lat: Vec<V> = if n == 1 { cs.iter().map(|c| V::Rv(vec![*c])).collect() } else { cs.iter().flat_map(|a| cs.iter().map(move |b| V::Rv(vec![*a, *b]))).collect() };
+                jobs.push((Spec::Rv { dim: n, bounds: None, frac: None }, lat));
+            }
         }
         // weights of absurd magnitude (the law is evaluated wherever the textbook formula itself is finite)
         if prop != "C10" {
